@@ -583,6 +583,10 @@ def make_reward_fn(spec, domain):
             return r.choice([0.0, 0.25, 0.5])
         if kind == "unit":
             return r.random()
+        if kind == "edge":
+            # monotone objective: the maximiser sits in a corner of the box
+            sgn = spec.get("sign", 1.0)
+            return sgn * sum(((float(x) - lo) / (hi - lo) if hi > lo else 0.0) for x, (lo, hi) in zip(p, domain)) / len(domain)
         if kind == "bernoulli":
             return 1.0 if r.random() < spec.get("p", 0.5) else 0.0
         raise HarnessError("unknown reward kind " + kind)
